@@ -17,3 +17,25 @@ COMMON_ASSUMPTIONS = [
     'std::hash of bytes = constant, unordered containers never rehash; container node storage is typed (harness/shadow/ext/aligned_buffer.h)',
     'cbmc run with --no-standard-checks (memory safety of library code is not claimed) plus the checks named per query',
 ]
+
+
+def batch(jobs, k, name_prefix='batch'):
+    """pack jobs (same harness / entry / units / unwind, each with .params) into batch jobs of k members.
+    The harness entry must read PARAM(0) = number of shapes and then, per shape, its length followed by its parameters."""
+    out = []
+    groups = {}
+    for j in jobs:
+        groups.setdefault((j.harness, j.entry, j.units, j.unwind, j.defs, j.flags, j.narrow), []).append(j)
+    n = 0
+    for key, js in groups.items():
+        for i in range(0, len(js), k):
+            ms = js[i:i + k]
+            params = [len(ms)]
+            for m in ms:
+                params += [len(m.params)] + list(m.params)
+            b = Job('%s%d[%s..%s]' % (name_prefix, n, ms[0].name, ms[-1].name), ms[0].harness, ms[0].entry, ms[0].units, ms[0].unwind, defs=ms[0].defs, flags=ms[0].flags,
+                    narrow=ms[0].narrow, timeout=sum(m.timeout for m in ms), mem=max(m.mem for m in ms), params=params, desc='batch of %d shapes' % len(ms))
+            b.members = [Job(m.name, m.harness, m.entry, m.units, m.unwind, defs=m.defs, flags=m.flags, narrow=m.narrow, timeout=m.timeout, mem=m.mem,
+                             params=[1, len(m.params)] + list(m.params), desc=m.desc, bounds=m.bounds, kf=m.kf, kfonly=m.kfonly) for m in ms]
+            out.append(b); n += 1
+    return out
